@@ -14,6 +14,8 @@ TRUSTED = TRUSTED_COMMON + [
 STANDINS = """
 #[verifier::external_type_specification]
 pub struct ExIpAddr(std::net::IpAddr);
+// std: IpAddr::to_canonical may turn an IPv4-mapped IPv6 address into an IPv4 one: no postcondition (any address may come back)
+pub assume_specification [std::net::IpAddr::to_canonical] (a: &std::net::IpAddr) -> (r: std::net::IpAddr);
 pub struct RecursiveContextInner { pub protocol_mode: ProtocolMode, pub upstream_dns_port: u16 }
 // stand-in for Context<'a, RecursiveContextInner>: the configuration plus a ghost log of the query types asked through it
 pub struct RecursiveContext<'a> { pub r: RecursiveContextInner, pub asked: Ghost<Seq<QueryType>>, pub z: &'a u8 }
